@@ -805,9 +805,17 @@ class SliceIndexer(ShapedSliceIndexer):
         if slc.stop is None and slc.step < 0:  # special backwards indexing case
             self._shaped_inst = \
                 ShapedSliceIndexer(slc)
-        elif (slc.start is not None and slc.start < 0) or slc.stop is None or slc.stop < 0:
-            self._shaped_inst = \
-                ShapedSliceIndexer(slice(*self._slice.indices(self._src_shape[0])))
+        elif (slc.start is not None and slc.start < 0) or slc.stop is None or slc.stop < 0 or \
+                (slc.start is None and slc.step < 0):
+            start, stop, step = slc.indices(self._src_shape[0])
+            if step < 0:
+                # slice.indices uses -1 for 'before the first entry', which would be read as
+                # 'last entry' if it were put back into a slice
+                if start < 0:
+                    start, stop = 0, 0
+                elif stop < 0:
+                    stop = None
+            self._shaped_inst = ShapedSliceIndexer(slice(start, stop, step))
         else:
             self._shaped_inst = ShapedSliceIndexer(slc)
 
